@@ -75,7 +75,7 @@ func checkC17(w *World, r *Report) {
 	r.Rule("C17.pool", "P5,P6", "the pool-send success path appends a trace whose Address is the recipient, Genesis=false, FromGenesisAccount=false and FromGenesisPool = pool.GenesisPool", 4)
 	r.Rule("C17.split", "P5,P6", "the split path appends a trace only when the sender is traced, with Address = recipient, Genesis=false, FromGenesisPool = sender.FromGenesisPool and FromGenesisAccount = sender.Genesis || sender.FromGenesisAccount (truth table)", 5)
 	r.Rule("C17.only", "P4", "trace writers reachable from messages are exactly these two append sites", 2)
-	r.Rule("C17.summary", "P6,P8", "summary: all = accounts + pools; delegated = vesting - locked (this order); accounts summed over GetVestingCoins / LockedCoins of the traced accounts at block time; the genesis variant filters by IsGenesisOrFromGenesis (all three flags) and takes pools from GetGenesisAmount (only genesis pools, currently locked)", 8)
+	r.Rule("C17.summary", "P6,P8", "summary: all = accounts + pools; delegated = vesting - locked (this order); accounts summed over GetVestingCoins / LockedCoins of the traced accounts at block time; the genesis variant filters by IsGenesisOrFromGenesis (all three flags) and takes pools from GetGenesisAmount (only genesis pools, currently locked); closed world: a recorded account is left out of the sums only by the genesis filter or the account-type test, and the loop is never left early", 11)
 	if !ro.checkFloors(r) {
 		return
 	}
@@ -346,6 +346,43 @@ func c17summary(w *World, r *Report) {
 		}
 	}
 	r.Check(filt, "C17.summary", "genesis variant filters by IsGenesisOrFromGenesis", pos, "filter present", "no genesis filter")
+	// closed world: which traced accounts are counted. In the loop over the traces the only conditions that let an
+	// iteration end without reaching the two sums are the genesis filter and the account-type test.
+	{
+		var tl *rangeLoop
+		for _, l := range rangeLoops(fn) {
+			l := l
+			if l.Over != nil && tr.Origins(l.Over).HasCall("GetAllVestingAccountTrace") {
+				tl = &l
+			}
+		}
+		if tl == nil {
+			r.Unk("C17.summary", "loop over the recorded accounts", pos, "loop not found")
+		} else {
+			must := func(b *ssa.BasicBlock) bool {
+				return blockHasCall(b, func(c *ssa.Call) bool { return strings.HasSuffix(callName(c.Common()), "ContinuousVestingAccount.GetVestingCoins") })
+			}
+			nskip := 0
+			for _, sc := range loopSkipConds(*tl, must) {
+				nskip++
+				base, _ := stripNot(sc.Cond)
+				o := tr.Origins(base)
+				kind := ""
+				switch {
+				case o.HasCall("IsGenesisOrFromGenesis") && !o.HasCall("GetBalance") && !o.HasCall("GetAllBalances") && !o.HasCall("SpendableCoins"):
+					kind = "the genesis filter"
+				case isTypeAssertOK(base, "ContinuousVestingAccount"):
+					kind = "the account-type test"
+				}
+				construct := fmt.Sprintf("summary loop: skip condition #%d", nskip)
+				if kind != "" {
+					construct = "summary loop: an account is left out only by " + kind
+				}
+				r.Check(kind != "", "C17.summary", construct, w.Pos(ifPos(sc)), kind, "a recorded account can be left out of the summaries under a condition that is neither the genesis filter nor the account-type test: "+renderVal(base, 0))
+			}
+			r.Check(loopEarlyExit(*tl) == nil, "C17.summary", "summary loop visits every recorded account", pos, "no early exit", "the loop over the recorded accounts is left early")
+		}
+	}
 	if g := w.Func("x/cfevesting/types.VestingAccountTrace.IsGenesisOrFromGenesis"); g != nil {
 		ret := Returns(g)
 		why := "no return"
@@ -373,3 +410,69 @@ func c17summary(w *World, r *Report) {
 		r.Check(good, "C17.summary", "GetGenesisAmount sums GetCurrentlyLocked of genesis pools only", w.Pos(g.Pos()), "dominated by the GenesisPool flag", "non-genesis pools are counted (or locked amount not used)")
 	}
 }
+
+// loopSkipConds lists the conditional branches inside a loop one of whose edges can reach the loop header again
+// without passing a block for which must() holds (an iteration that skips the work), while the block itself is
+// reached before that work.
+func loopSkipConds(l rangeLoop, must func(*ssa.BasicBlock) bool) []*ssa.If {
+	in := loopBlocks(l.Header)
+	// W: blocks of the loop from which the work is still reachable within this iteration
+	memo := map[*ssa.BasicBlock]int{} // 1 reachable, 2 not, 3 in progress
+	var reach func(b *ssa.BasicBlock) bool
+	reach = func(b *ssa.BasicBlock) bool {
+		if !in[b] || b == l.Header {
+			return false
+		}
+		if must(b) {
+			return true
+		}
+		switch memo[b] {
+		case 1:
+			return true
+		case 2, 3:
+			return false
+		}
+		memo[b] = 3
+		ok := false
+		for _, s := range b.Succs {
+			if reach(s) {
+				ok = true
+			}
+		}
+		if ok {
+			memo[b] = 1
+		} else {
+			memo[b] = 2
+		}
+		return ok
+	}
+	var out []*ssa.If
+	for _, b := range l.Header.Parent().Blocks {
+		if !in[b] || b == l.Header || must(b) || !reach(b) {
+			continue
+		}
+		i := blockIf(b)
+		if i == nil {
+			continue
+		}
+		for _, s := range b.Succs {
+			// the work is abandoned on this edge, and not because the whole call fails
+			if !reach(s) && !must(s) && !FailsFrom(s) {
+				out = append(out, i)
+				break
+			}
+		}
+	}
+	return out
+}
+
+// isTypeAssertOK: v is the ok result of a comma-ok type assertion to a type whose name ends in suffix.
+func isTypeAssertOK(v ssa.Value, suffix string) bool {
+	ex, ok := v.(*ssa.Extract)
+	if !ok || ex.Index != 1 {
+		return false
+	}
+	ta, ok := ex.Tuple.(*ssa.TypeAssert)
+	return ok && ta.CommaOk && strings.HasSuffix(typeString(ta.AssertedType), suffix)
+}
+
